@@ -30,10 +30,24 @@ allowed, losing the scale of a similarity is not); `small` - vertices and transl
 that world / edge matrices within 1e-8 of the identity occur (tolerance relative to the coordinates: an
 absolute `is identity` shortcut is then an error of several times the size of the geometry).
 
+The `kinds` family (one special geometry class per scene, next to ordinary meshes / point clouds): a Trimesh /
+Path2D / Path3D with a vertex nothing references, paths with arcs (a full circle given by control points on one
+half, a 240 degree arc), Box / Cylinder primitives, a VoxelGrid.  Their bounds are those of the placed geometry
+(referenced vertices, the arc itself to within the sagitta of its discretisation, the voxel box), not of a raw
+array; keys of this family end in ` special=<class>` unless the graph alone explains the symptom.
+
+Histories may end with `scene.graph.base_frame = <another frame of the tree>` (reads only are judged in that state:
+the derived operations are written for a base frame that is the root of its tree).
+
+A subscene is every instance at or below the requested frame, relative to that frame - the instance that sits on
+the frame itself included (round 4: `successors(node)` contains `node`, the docstring says "the part of the scene
+that succeeds the node", and for a leaf frame nothing else could be meant).
+
 Not judged (statement silent): scenes whose geometry frames are not connected to the base
 frame; triangles / to_mesh / convex_hull of a scene without any triangle / vertex (may refuse);
-the instance at the root of a subscene; geometry kept in `scene.geometry` without any frame;
-center_mass / moment_inertia on scenes that contain anything but closed meshes.
+geometry kept in `scene.geometry` without any frame;
+center_mass / moment_inertia on scenes that contain anything but closed meshes; per-axis `scaled` of a scene with a
+primitive (a Box / Cylinder cannot take it and stay one: ValueError accepted); NOT_JUDGED_SPECIAL below.
 When the real scene graph itself answers differently from the reference forest (property C09)
 this is reported once under its own key and the scene reads are then judged against the
 graph's own answers, so that C10 keys describe scene-level mechanisms only.
@@ -42,6 +56,7 @@ graph's own answers, so that C10 keys describe scene-level mechanisms only.
 from __future__ import annotations
 
 import itertools
+import json
 
 import numpy as np
 
@@ -59,7 +74,11 @@ RULE = (
     "each, then every derived-scene operation (incl. a copy that is edited afterwards). Two more regimes of the "
     "same scenes: `lowprec` (rotation factors of rigid / similarity edges in single precision or six decimals, judged "
     "at the documented repair_rigid = 1e-5 x size) and `small` (vertices and translations in a unit of 1e-9, "
-    "translation-only edges frequent, Trimesh / PointCloud / Path3D, tolerance relative to the coordinates). A case is one (scene, edits, derived op) execution; distinct = "
+    "translation-only edges frequent, Trimesh / PointCloud / Path3D, tolerance relative to the coordinates). A `kinds` "
+    "family (battery + 1 random scene in 8): one of {mesh / path with an unreferenced vertex, paths with arcs, Box / "
+    "Cylinder primitive, VoxelGrid} instanced 1-3 times next to ordinary geometry, graph edits and geometry transforms "
+    "only. Histories may end with the base frame moved to another frame of the tree (reads only); derived operations "
+    "include scale factors within 1e-5 of one and the subscene of inner and leaf frames that carry an instance. A case is one (scene, edits, derived op) execution; distinct = "
     "distinct (forest shape, kinds per frame, edge classes, edit kinds, operation, option class); non-trivial "
     "= the scene has at least one placed instance whose world matrix is not the identity."
 )
@@ -151,36 +170,207 @@ SCALES = (0.5, 2.0, 0.8, 1.25)
 
 
 class GeomModel:
-    __slots__ = ("kind", "V", "F")
+    """
+    kind   mesh | cloud | path3 | path2 | voxel
+    sub    None (every row of V is used by the geometry and bounds it), or - scenes of the `kinds` family -
+           "stray"  a Trimesh / Path with one vertex nothing references,
+           "arc"    a Path whose entities include Arcs (recipe["entities"]: ["line", idx] | ["arc", idx3, closed]),
+           "prim"   a Box / Cylinder primitive (recipe: type, parameters, transform; V, F its tessellation),
+           "voxel"  a VoxelGrid (recipe: dense, transform; V the centres of the filled cells)
+    """
 
-    def __init__(self, kind, V, F=None):
+    __slots__ = ("kind", "V", "F", "sub", "recipe")
+
+    def __init__(self, kind, V, F=None, sub=None, recipe=None):
         self.kind = kind
         self.V = np.array(V, dtype=np.float64)
         self.F = None if F is None else np.array(F, dtype=np.int64)
+        self.sub = sub
+        self.recipe = None if recipe is None else json.loads(json.dumps(recipe))
 
     def copy(self):
-        return GeomModel(self.kind, self.V, self.F)
+        return GeomModel(self.kind, self.V, self.F, self.sub, self.recipe)
 
     def lifted(self):
         if self.V.shape[1] == 2:
             return np.column_stack([self.V, np.zeros(len(self.V))])
         return self.V
 
+    def special(self):
+        if self.sub is None:
+            return None
+        if self.sub == "stray":
+            return "mesh_unreferenced_vertex" if self.kind == "mesh" else "path_unreferenced_vertex"
+        return {"arc": "path_arc", "prim": "primitive", "voxel": "voxel"}[self.sub]
+
+    def referenced(self):
+        """rows of V that the geometry uses"""
+        if self.sub == "stray":
+            return np.unique(self.F) if self.kind == "mesh" else np.array(self.recipe["referenced"], dtype=np.int64)
+        return np.arange(len(self.V))
+
+    def bounding(self, W):
+        """
+        (points whose AABB is the AABB of the geometry placed with W, AABB of what a reader of the raw
+        arrays would take for it: every row of the vertex array / the two corners of the geometry's own AABB)
+        """
+        L, t = W[:3, :3], W[:3, 3]
+        P = self.lifted() @ L.T + t
+        raw = P
+        if self.sub == "stray":
+            return P[self.referenced()], raw
+        if self.sub == "arc":
+            pts = []
+            for e in self.recipe["entities"]:
+                if e[0] == "line":
+                    pts.append(P[e[1]])
+                else:
+                    pts.append(arc_bounding_points(P[e[1]], bool(e[2])))
+            return np.vstack(pts), raw
+        if self.kind == "voxel":
+            T = np.array(self.recipe["transform"], dtype=np.float64)
+            idx = np.argwhere(np.array(self.recipe["dense"], dtype=bool))
+            lo, hi = idx.min(axis=0) - 0.5, idx.max(axis=0) + 0.5
+            C = np.array(list(itertools.product(*zip(lo, hi))))
+            C = C @ T[:3, :3].T + T[:3, 3]
+            own = np.array([C.min(axis=0), C.max(axis=0)])  # VoxelGrid.bounds in the geometry's frame
+            return C @ L.T + t, own @ L.T + t
+        return P, raw
+
+    def curve_radius(self, W):
+        """largest radius of a placed arc (the library discretises arcs: bounds are exact to a chord sagitta)"""
+        if self.sub != "arc":
+            return 0.0
+        P = self.lifted() @ W[:3, :3].T + W[:3, 3]
+        return max([arc_circle(P[e[1]])[1] for e in self.recipe["entities"] if e[0] == "arc"] or [0.0])
+
+
+def arc_circle(ABC):
+    """centre, radius, in-plane orthonormal basis (u towards A, v so that A -> B -> C runs counter-clockwise)"""
+    A, B, C = ABC
+    a, b = A - C, B - C
+    n = np.cross(a, b)
+    c = C + np.cross(np.dot(a, a) * b - np.dot(b, b) * a, n) / (2.0 * np.dot(n, n))
+    r = float(np.linalg.norm(A - c))
+    u = (A - c) / r
+    v = np.cross(n / np.linalg.norm(n), u)
+
+    def ang(X):
+        return float(np.arctan2(np.dot(X - c, v), np.dot(X - c, u)) % (2 * np.pi))
+
+    if ang(B) > ang(C):
+        v = -v
+    return c, r, u, v, ang(C)
+
+
+def arc_bounding_points(ABC, closed):
+    """end points of the arc A -> B -> C (or nothing, for a full circle) and its axis-extreme points"""
+    c, r, u, v, end = arc_circle(ABC)
+    if closed:
+        end = 2 * np.pi
+    pts = [ABC[0], ABC[2]] if not closed else []
+    for i in range(3):
+        th = float(np.arctan2(v[i], u[i]) % (2 * np.pi))
+        for cand in (th, (th + np.pi) % (2 * np.pi)):
+            if cand <= end:
+                pts.append(c + r * (np.cos(cand) * u + np.sin(cand) * v))
+    return np.array(pts)
+
 
 def make_real(gm):
     import trimesh
-    from trimesh.path.entities import Line
+    from trimesh.path.entities import Arc, Line
 
+    if gm.sub == "prim":
+        rc = gm.recipe
+        T = np.array(rc["transform"], dtype=np.float64)
+        if rc["type"] == "box":
+            return trimesh.primitives.Box(extents=rc["extents"], transform=T)
+        return trimesh.primitives.Cylinder(radius=rc["radius"], height=rc["height"], sections=rc["sections"], transform=T)
+    if gm.kind == "voxel":
+        return trimesh.voxel.VoxelGrid(np.array(gm.recipe["dense"], dtype=bool), transform=np.array(gm.recipe["transform"], dtype=np.float64))
+    if gm.sub == "arc":
+        ents = [Line(list(e[1])) if e[0] == "line" else Arc(list(e[1]), closed=bool(e[2])) for e in gm.recipe["entities"]]
+        cls = trimesh.path.Path2D if gm.kind == "path2" else trimesh.path.Path3D
+        return cls(entities=ents, vertices=gm.V.copy(), process=False)
     if gm.kind == "mesh":
         return trimesh.Trimesh(vertices=gm.V.copy(), faces=gm.F.copy(), process=False)
     if gm.kind == "cloud":
         return trimesh.PointCloud(gm.V.copy())
+    n = len(gm.referenced())
     if gm.kind == "path3":
-        return trimesh.path.Path3D(entities=[Line(np.arange(len(gm.V)))], vertices=gm.V.copy(), process=False)
+        return trimesh.path.Path3D(entities=[Line(np.arange(n))], vertices=gm.V.copy(), process=False)
     if gm.kind == "path2":
-        idx = list(range(len(gm.V))) + [0]
+        idx = list(range(n)) + [0]
         return trimesh.path.Path2D(entities=[Line(idx)], vertices=gm.V.copy(), process=False)
     raise KeyError(gm.kind)
+
+
+SPECIALS = ("mesh_stray", "path2_stray", "path3_stray", "path2_circle", "path2_arc", "path3_arc", "box", "cylinder", "voxel")
+
+
+def special_geom(rng, which):
+    """
+    One geometry of the `kinds` family (rng None: the fixed one).  Classes whose bounds are not the AABB of
+    their vertex array (a vertex nothing references; arcs: control points on one side of the circle; a voxel
+    grid: no vertex array at all) and primitives (parameters + transform, tessellated on demand).
+    """
+    def jit(lo, hi, size=None, fixed=None):
+        if rng is None:
+            return np.array(fixed, dtype=np.float64) if size else float(fixed)
+        return np.round(rng.uniform(lo, hi, size=size), 3) if size else float(np.round(rng.uniform(lo, hi), 3))
+
+    far = jit(6.0, 9.0, 3, [7.0, 8.0, 6.5]) * np.array([1.0, -1.0, 1.0])
+    if which == "mesh_stray":
+        gm = _fixed_geom("mesh") if rng is None else _random_geom(rng, "mesh")
+        return GeomModel("mesh", np.vstack([gm.V, far]), gm.F, sub="stray")
+    if which == "path3_stray":
+        gm = _fixed_geom("path3") if rng is None else _random_geom(rng, "path3")
+        return GeomModel("path3", np.vstack([gm.V, far]), sub="stray", recipe={"referenced": list(range(len(gm.V)))})
+    if which == "path2_stray":
+        gm = _fixed_geom("path2") if rng is None else _random_geom(rng, "path2")
+        return GeomModel("path2", np.vstack([gm.V, far[:2]]), sub="stray", recipe={"referenced": list(range(len(gm.V)))})
+    if which in ("path2_circle", "path2_arc", "path3_arc"):
+        r = jit(1.0, 3.0, None, 2.0)
+        c = jit(-2.0, 2.0, 2, [0.5, -1.0])
+        if which == "path2_circle":
+            # a full circle given by three control points on its upper half, and a chord
+            ang = [0.0, np.pi / 2, np.pi]
+            ents = [["arc", [0, 1, 2], True], ["line", [0, 2]]]
+        else:
+            # an arc of 240 degrees from 30 degrees on (its extremes at 90, 180 and 270 degrees are not
+            # control points), closed by a chord
+            ang = [np.pi / 6, 5 * np.pi / 6, 3 * np.pi / 2]
+            ents = [["arc", [0, 1, 2], False], ["line", [2, 0]]]
+        V = np.column_stack([np.cos(ang), np.sin(ang)]) * r + c
+        if which == "path3_arc":
+            return GeomModel("path3", np.column_stack([V, np.full(3, jit(-1.0, 1.0, None, 0.5))]), sub="arc", recipe={"entities": ents})
+        return GeomModel("path2", V, sub="arc", recipe={"entities": ents})
+    T = axis_angle_to_matrix(_unit([1, -1, 2]), 0.8 if rng is None else float(rng.uniform(0.3, 2.5)))
+    T[:3, 3] = jit(-2.0, 2.0, 3, [1.0, -0.5, 2.0])
+    if which in ("box", "cylinder"):
+        if which == "box":
+            rc = {"type": "box", "extents": jit(1.0, 3.0, 3, [1.0, 2.0, 3.0]).tolist(), "transform": T.tolist()}
+        else:
+            rc = {"type": "cylinder", "radius": jit(0.5, 1.5, None, 0.75), "height": jit(1.0, 3.0, None, 2.0),
+                  "sections": 8, "transform": T.tolist()}
+        gm = GeomModel("mesh", np.zeros((0, 3)), np.zeros((0, 3)), sub="prim", recipe=rc)
+        real = make_real(gm)
+        gm.V, gm.F = np.array(real.vertices, dtype=np.float64), np.array(real.faces, dtype=np.int64)
+        return gm
+    if which == "voxel":
+        dense = np.ones((3, 2, 2), dtype=bool)
+        if rng is not None and rng.random() < 0.5:
+            dense = np.ones((3, 3, 2), dtype=bool)
+            dense[1, 1, :] = False
+        G = np.eye(4)
+        G[:3, :3] *= 0.5 if rng is None else float(rng.choice([0.25, 0.5, 1.0]))
+        G[:3, 3] = jit(-2.0, 2.0, 3, [1.0, 0.0, -0.5])
+        if rng is not None and rng.random() < 0.3:
+            G = T @ G  # a grid that is rotated in its own geometry frame
+        idx = np.argwhere(dense)
+        return GeomModel("voxel", idx @ G[:3, :3].T + G[:3, 3], sub="voxel", recipe={"dense": dense.tolist(), "transform": G.tolist()})
+    raise KeyError(which)
 
 
 def random_geom(rng, kind, unit=1.0):
@@ -352,6 +542,13 @@ class SceneModel:
     def kinds_present(self):
         return sorted({self.geoms[g].kind for _, g, _ in self.forest.instances() if g in self.geoms})
 
+    def special(self):
+        """the special geometry class of a `kinds` scene (one per scene), else None"""
+        for gm in self.geoms.values():
+            if gm.sub is not None:
+                return gm.special()
+        return None
+
     def nontrivial(self):
         return any(np.abs(W - np.eye(4)).max() > 1e-9 * self.unit for _, _, W in self.forest.instances())
 
@@ -369,11 +566,15 @@ class SceneModel:
     def digest(self):
         f = self.forest
         per_node = tuple(
-            (f.depth(n), self.geoms[f.geometry[n]].kind if f.geometry.get(n) in self.geoms else "-",
+            (f.depth(n), _kind_tag(self.geoms[f.geometry[n]]) if f.geometry.get(n) in self.geoms else "-",
              _edge_tag(f.matrix.get(n)))
             for n in f.nodes
         )
         return (f.shape(), per_node, tuple(self.hist), self.regime)
+
+
+def _kind_tag(gm):
+    return gm.kind if gm.sub is None else "%s:%s" % (gm.kind, gm.sub)
 
 
 def _edge_tag(M):
@@ -409,12 +610,24 @@ class Expect:
         self.P = sm.placements(worlds)
         pts = [p[4] for p in self.P if len(p[4])]
         self.points = np.vstack(pts) if pts else np.zeros((0, 3))
-        if len(self.points):
-            self.bounds = np.array([self.points.min(axis=0), self.points.max(axis=0)])
+        # bounds: the AABB of every placed geometry (of the vertices it uses, of its arcs, of its voxels);
+        # bounds_raw: what the AABB of the raw arrays would give (symptom classification only)
+        bpts, rpts, self.curve_slack = [], [], 0.0
+        for node, gname, kind, W, P, F in self.P:
+            b, raw = sm.geoms[gname].bounding(W)
+            if len(b):
+                bpts.append(b)
+            if len(raw):
+                rpts.append(raw)
+            self.curve_slack = max(self.curve_slack, 1e-3 * sm.geoms[gname].curve_radius(W))
+        self.bounds = self.extents = self.centroid = self.bounds_raw = None
+        if bpts:
+            bp = np.vstack(bpts)
+            self.bounds = np.array([bp.min(axis=0), bp.max(axis=0)])
             self.extents = self.bounds[1] - self.bounds[0]
             self.centroid = self.bounds.mean(axis=0)
-        else:
-            self.bounds = self.extents = self.centroid = None
+            rp = np.vstack(rpts)
+            self.bounds_raw = np.array([rp.min(axis=0), rp.max(axis=0)])
         tris, tnode = [], []
         area = vol = 0.0
         area_unscaled = vol_unscaled = 0.0
@@ -425,12 +638,18 @@ class Expect:
                 tris.append(T)
                 tnode += [node] * len(T)
                 area += float(tri_area(T).sum())
-                vol += tri_volume(T)
                 T0 = gm.V[F]
                 area_unscaled += float(tri_area(T0).sum())
-                vol_unscaled += tri_volume(T0)
-            elif kind == "path2":
-                a0 = abs(shoelace(gm.V))
+                if gm.sub == "prim" and gm.recipe["type"] == "cylinder":
+                    # the volume of a Cylinder is that of the cylinder, not of its tessellation
+                    v0 = float(np.pi * gm.recipe["radius"] ** 2 * gm.recipe["height"])
+                    vol += v0 * lin_scale(W) ** 3
+                    vol_unscaled += v0
+                else:
+                    vol += tri_volume(T)
+                    vol_unscaled += tri_volume(T0)
+            elif kind == "path2" and gm.sub != "arc":
+                a0 = abs(shoelace(gm.V[gm.referenced()]))
                 area += a0 * float(np.linalg.norm(np.cross(W[:3, 0], W[:3, 1])))
                 area_unscaled += a0
         self.triangles = np.vstack(tris) if tris else np.zeros((0, 3, 3))
@@ -508,7 +727,8 @@ def build(spec):
 
 def spec_to_json(spec):
     return {
-        "geoms": {k: {"kind": g.kind, "V": g.V.tolist(), "F": None if g.F is None else g.F.tolist()} for k, g in spec["geoms"].items()},
+        "geoms": {k: {"kind": g.kind, "V": g.V.tolist(), "F": None if g.F is None else g.F.tolist(), "sub": g.sub, "recipe": g.recipe}
+                  for k, g in spec["geoms"].items()},
         "frames": [[n, p, M.tolist(), g] for n, p, M, g in spec["frames"]],
         "unplaced": list(spec.get("unplaced", ())),
         "unit": float(spec.get("unit", 1.0)), "regime": spec.get("regime"),
@@ -517,15 +737,18 @@ def spec_to_json(spec):
 
 def spec_from_json(j):
     return {
-        "geoms": {k: GeomModel(g["kind"], g["V"], g["F"]) for k, g in j["geoms"].items()},
+        "geoms": {k: GeomModel(g["kind"], g["V"], g["F"], g.get("sub"), g.get("recipe")) for k, g in j["geoms"].items()},
         "frames": [(n, p, np.array(M, dtype=np.float64), g) for n, p, M, g in j["frames"]],
         "unplaced": list(j.get("unplaced", ())),
         "unit": float(j.get("unit", 1.0)), "regime": j.get("regime"),
     }
 
 
-def random_spec(rng, pyrng, regime=None):
+def random_spec(rng, pyrng, regime=None, special=None):
     """
+    special: one of SPECIALS - a scene of the `kinds` family: geometry g0 is of that class (instanced at least
+             once), the other geometries are ordinary meshes / point clouds
+
     regime None:      exact float64 edge matrices, coordinates of order 1
            "lowprec": rotation factors in single precision / six decimals (similarity edges mostly)
            "small":   the same scenes in a unit of 1e-9 (vertices and translations), translation-only edges
@@ -542,11 +765,15 @@ def random_spec(rng, pyrng, regime=None):
         "mesh+path2": ["mesh", "path2"], "all": list(KINDS), "nomesh": ["cloud", "path3", "path2"],
         "all3": ["mesh", "cloud", "path3"], "nomesh3": ["cloud", "path3"],
     }[kinds_mode]
+    if special is not None:
+        pool_kinds = pyrng.choice([["mesh"], ["mesh", "cloud"]])
     ng = int(rng.integers(1, 5))
     geoms = {}
     for i in range(ng):
         k = pool_kinds[i] if i < len(pool_kinds) else pyrng.choice(pool_kinds)
         geoms["g%d" % i] = random_geom(rng, k, unit)
+    if special is not None:
+        geoms["g0"] = special_geom(rng, special)
     edge_mode = pyrng.choice(["rigid", "rigid", "similarity", "mixed"])
     rot_mode = pyrng.choice(["general", "general", "aligned", "none", "mixed"])
     if regime == "lowprec":
@@ -571,8 +798,14 @@ def random_spec(rng, pyrng, regime=None):
             precision = pyrng.choice(["float32", "decimal6"])
         M = edge_matrix(rng, rc, s, translate=pyrng.random() < 0.9, unit=unit, precision=precision)
         g = pyrng.choice(list(geoms)) if pyrng.random() < 0.7 else None
+        if special is not None and g is not None and pyrng.random() < 0.4:
+            g = "g0"
         frames.append((name, parent, M, g))
-    if not any(f[3] for f in frames):
+    if special is not None:
+        if not any(f[3] == "g0" for f in frames):
+            n, p, M, _ = frames[0]
+            frames[0] = (n, p, M, "g0")
+    elif not any(f[3] for f in frames):
         n, p, M, _ = frames[-1]
         frames[-1] = (n, p, M, "g0")
     placed = {f[3] for f in frames if f[3]}
@@ -607,12 +840,15 @@ def regime_battery_specs():
     combos = list(itertools.product(("float32", "decimal6"), ((2.5, 0.4, 3.0), (1.0, 1.0, 1.0), (2.0, 0.5, 1.25))))
     # exact similarity edges whose scale is close to 1 (s^2 - 1 >= 1e-3, 100 x the repair_rigid threshold)
     combos.append((None, (1.0005, 0.999, 1.004)))
+    # ... and scales a calibration / shrinkage factor has: s^2 - 1 inside the window repair_rigid acts on
+    combos.append((None, (1.000004, 1.000003, 0.999996)))
     for precision, (s1, s2, s3) in combos:
         if precision is None:
             frames = [("rig", None, scaled_by(A1, s1), None), ("box_a", "rig", Tr.copy(), "g0"),
                       ("ball_a", "rig", scaled_by(A2, s2), "g1"), ("box_b", None, scaled_by(A3, s3), "g0")]
-            out.append(("battery:scale_near_one", {"geoms": {"g0": fixed_geom("mesh"), "g1": fixed_geom("cloud")},
-                                                   "frames": frames, "unplaced": [], "unit": 1.0, "regime": None}))
+            out.append(("battery:scale_near_one" if abs(s1 - 1) > 1e-4 else "battery:scale_within_1e-5_of_one",
+                        {"geoms": {"g0": fixed_geom("mesh"), "g1": fixed_geom("cloud")},
+                         "frames": frames, "unplaced": [], "unit": 1.0, "regime": None}))
             continue
         frames = [
             ("rig", None, degrade(scaled_by(A1, s1), precision), None),
@@ -638,6 +874,50 @@ def regime_battery_specs():
         geoms = {"g0": fixed_geom(kind, u), "gm": fixed_geom("mesh", u)}
         out.append(("battery:small:%s:depth%d" % (kind, depth),
                     {"geoms": geoms, "frames": frames, "unplaced": [], "unit": u, "regime": "small"}))
+    # a 2-D drawing of a few 1e-9 lifted out of its plane by a few 1e-9 (directly / by the frame above it)
+    for depth in (1, 2):
+        T1 = np.eye(4)
+        T1[:3, 3] = [5 * u, 0.0, 3 * u]
+        T2 = np.eye(4)
+        T2[:3, 3] = [0.0, -3 * u, 0.0]
+        R = axis_angle_to_matrix(_unit([1, 2, 3]), 0.9)
+        R[:3, 3] = [1 * u, -2 * u, 4 * u]
+        R2 = axis_angle_to_matrix(_unit([0, 1, 1]), -0.5)
+        R2[:3, 3] = [-4 * u, 2 * u, 1 * u]
+        frames = [("f0", None, T1, "g0" if depth == 1 else None)]
+        if depth == 2:
+            frames.append(("f1", "f0", T2, "g0"))
+        frames += [("r0", None, R, "gm"), ("r1", None, R2, "gm")]
+        geoms = {"g0": fixed_geom("path2", u), "gm": fixed_geom("mesh", u)}
+        out.append(("battery:small:path2_lifted:depth%d" % depth,
+                    {"geoms": geoms, "frames": frames, "unplaced": [], "unit": u, "regime": "small"}))
+        if depth == 2:
+            # most instances are paths: `to_geometry` concatenates the dumped paths
+            T3 = np.eye(4)
+            T3[:3, 3] = [-2 * u, 1 * u, -4 * u]
+            frames = frames[:3] + [("f2", None, T3, "g0")]
+            out.append(("battery:small:path2_lifted:paths_majority",
+                        {"geoms": geoms, "frames": frames, "unplaced": [], "unit": u, "regime": "small"}))
+    return out
+
+
+def kinds_battery_specs():
+    """
+    Seed-independent scenes of the `kinds` family: one special geometry class per scene, instanced on an inner
+    frame (rigid edge) and on a frame below it (similarity edge), next to an ordinary mesh.
+    """
+    R1 = axis_angle_to_matrix(_unit([1, 2, 3]), 0.9)
+    R1[:3, 3] = [1.0, -2.0, 0.5]
+    R2 = axis_angle_to_matrix(_unit([-1, 0.5, 2]), -1.3)
+    R2[:3, :3] *= 2.0
+    R2[:3, 3] = [0.5, 3.0, -1.0]
+    R3 = axis_angle_to_matrix([0, 0, 1], np.pi / 4)
+    R3[:3, 3] = [-2.0, 0.0, 1.5]
+    out = []
+    for which in SPECIALS:
+        geoms = {"g0": special_geom(None, which), "gm": fixed_geom("mesh")}
+        frames = [("a", None, R1.copy(), "g0"), ("b", "a", R2.copy(), "g0"), ("c", None, R3.copy(), "g0"), ("m0", "a", R3.copy(), "gm")]
+        out.append(("battery:kinds:%s" % which, {"geoms": geoms, "frames": frames, "unplaced": []}))
     return out
 
 
@@ -685,6 +965,21 @@ CACHED = {"bounds", "extents", "centroid", "area", "volume", "triangles", "trian
           "center_mass", "moment_inertia"}
 
 
+# reads that are executed but not judged for a special geometry class (statement silent / the library's own
+# per-geometry value is not defined or only approximate): the area of a discretised arc, hulls that would have to
+# decide whether a vertex nothing references belongs to the geometry, the concatenation of a scene whose paths are
+# not polylines, anything but bounds / dump of a voxel grid
+NOT_JUDGED_SPECIAL = {
+    "path_arc": {"area", "convex_hull", "to_geometry"},
+    "path_unreferenced_vertex": {"convex_hull", "to_geometry"},
+    "mesh_unreferenced_vertex": {"convex_hull"},
+    "voxel": {"area", "volume", "convex_hull", "to_geometry", "center_mass", "moment_inertia"},
+    "primitive": set(),
+}
+RAW_BOUNDED = ("mesh_unreferenced_vertex", "path_unreferenced_vertex", "path_arc", "voxel")  # bounds != AABB of the arrays
+STALE_AFTER_BASE_FRAME = "read=cached_scene_quantity sym=entry_cached_before_the_edit_served after=set_base_frame"
+
+
 def dropped_expectations(sm, worlds, near):
     """
     Explicit placement with the near-identity world matrices replaced by the identity: for every such
@@ -699,6 +994,21 @@ def dropped_expectations(sm, worlds, near):
         for n_ in sel:
             wd[n_] = np.eye(4)
         out.append(Expect(sm, wd))
+    return out
+
+
+def flattened_worlds(sm, worlds):
+    """world matrices with the out-of-plane part of a 2-D path's matrix removed where it is below 1e-8"""
+    out = {}
+    for node, gname, W in sm.forest.instances():
+        W = np.array(worlds.get(node, W), dtype=np.float64)
+        if gname in sm.geoms and sm.geoms[gname].kind == "path2":
+            chk = np.abs(W - np.eye(4)) <= NEAR_IDENTITY
+            chk[:2, :3] = True
+            if chk.all():
+                W[2] = [0.0, 0.0, 1.0, 0.0]
+                W[:2, 2] = 0.0
+        out[node] = W
     return out
 
 
@@ -758,14 +1068,21 @@ def real_worlds(run, scene, sm, case):
         # a world matrix whose uniform scale is not the product of the edge scales (key feature)
         lost = any(node in worlds and abs(lin_scale(worlds[node]) - lin_scale(W)) > 1e-3 * lin_scale(W)
                    for node, gname, W in sm.forest.instances())
+        # a world matrix that is rigid although the product of the (exact) edges has a scale within 1e-5 of one
+        near_unit = sm.regime != "lowprec" and any(
+            node in worlds and abs(lin_scale(worlds[node]) - 1.0) < 1e-12 and 1e-9 < abs(lin_scale(W) - 1.0) < REPAIR_RIGID
+            for node, gname, W in sm.forest.instances())
         sym = ""
         if lost:
             sym = " sym=uniform_scale_differs edge_precision=%s" % ("low" if sm.regime == "lowprec" else "exact")
+        elif near_unit:
+            sym = " sym=scale_within_1e-5_of_one_dropped"
         elif ignored_small_updates(scene, sm):
             sym = " sym=edge_update_below_1e-8_ignored"
         elif worlds and all(not worlds_differ(M, world_skipping_near_identity(sm.forest, n)) for n, M in worlds.items()):
             sym = " sym=near_identity_edge_dropped_from_path"
-        run.violation(("graph_world_transform=differs_from_forest former_edge=%s%s" % (former, sym)) if "1e-8" not in sym and "near_identity" not in sym
+        run.violation(("graph_world_transform=differs_from_forest former_edge=%s%s" % (former, sym))
+                      if "1e-8" not in sym and "near_identity" not in sym and "1e-5" not in sym
                       else "graph_world_transform=differs_from_forest%s" % sym,
                       "scene.graph.get(node) is not the product of the current edges (property C09); scene reads "
                       "are judged against the graph's own answer for this state",
@@ -788,6 +1105,8 @@ def do_reads(run, scene, sm, reads, case, after="build", edited=False, pre_edit=
     kinds = sm.kinds_present()
     has2 = any(g.kind == "path2" for g in sm.geoms.values())  # placed or not: reads walk scene.geometry
     only_mesh = kinds == ["mesh"]
+    special = sm.special()
+    sfx = (" special=%s" % special) if special else ""
     near = sm.near_identity_nodes(worlds)
     if near:
         run.count("reads_with_a_world_matrix_within_1e-8_of_identity")
@@ -806,12 +1125,14 @@ def do_reads(run, scene, sm, reads, case, after="build", edited=False, pre_edit=
                 or (r in ("center_mass", "moment_inertia") and not only_mesh)
                 or (r == "to_geometry" and len(ex.triangles) == 0)
                 or (sm.regime == "small" and r in ("center_mass", "moment_inertia", "convex_hull"))
+                # the library defines no hull of a voxel grid (no vertices): what it contributes is not stated
+                or (special == "voxel" and r == "convex_hull")
             )
             if refuse_ok:
                 run.count("read_refused:%s" % r)
                 continue
             bad += 1
-            run.violation("read=%s sym=exception:%s path2_present=%s" % (r, type(e).__name__, "yes" if has2 else "no"),
+            run.violation("read=%s sym=exception:%s path2_present=%s%s" % (r, type(e).__name__, "yes" if has2 else "no", sfx),
                           "a scene-level read raised", dict(case, read=r, error=repr(e)[:300], after=after, kinds=kinds))
             continue
         run.count("reads")
@@ -829,6 +1150,13 @@ def do_reads(run, scene, sm, reads, case, after="build", edited=False, pre_edit=
             # (a bare Trimesh of that size behaves the same): not a scene-level mechanism
             run.count("read_not_judged:%s:small" % r)
             continue
+        if sm.regime == "small" and has2 and r == "area":
+            # polygon processing of a 2-D path (shapely) has absolute tolerances of its own
+            run.count("read_not_judged:area:small_path2")
+            continue
+        if special and r in NOT_JUDGED_SPECIAL[special]:
+            run.count("read_not_judged:%s:%s" % (r, special))
+            continue
         sym = judge_read(run, r, val, ex, sm, only_mesh)
         if sym is None:
             continue
@@ -840,12 +1168,26 @@ def do_reads(run, scene, sm, reads, case, after="build", edited=False, pre_edit=
                 ex_dropped = dropped_expectations(sm, worlds, near)
             if any(judge_read(run, r, val, e_, sm, only_mesh) is None for e_ in ex_dropped):
                 sym = NI_DROPPED
-        key = "read=%s sym=%s edge_class=%s" % (r, sym, ec)
+        if sm.regime == "small" and has2 and r in ("dump", "to_geometry") and sym != NI_DROPPED:
+            # is the value explicit placement with the 2-D paths kept in their plane wherever the matrix is
+            # within 1e-8 of an in-plane one?
+            if judge_read(run, r, val, Expect(sm, flattened_worlds(sm, worlds)), sm, only_mesh) is None:
+                sym = "planar_dump_of_out_of_plane_instance"
+        key = "read=%s sym=%s edge_class=%s%s" % (r, sym, ec, sfx)
         if sym == NI_DROPPED:
             key = "read=%s sym=%s" % (r, sym)  # neither the other edges nor the cache take part
+        elif after == "set_base_frame" and r in CACHED and pre_edit and any(
+                isinstance(v, np.ndarray) and scene._cache.cache.get(k) is v for k, v in pre_edit.items()):
+            # one mechanism (the key of Scene._cache does not know the base frame), whatever the read
+            key = STALE_AFTER_BASE_FRAME
         elif pre_edit is not None and r in pre_edit and val is pre_edit[r]:
             # the very object cached before the last edit came back
             key += " served=entry_cached_before_the_edit after=%s" % after
+        elif sym in ("aabb_of_raw_vertex_array", "aabb_of_two_transformed_corners"):
+            # extents and centroid are read off the same per-node corners
+            key = "read=bounds/extents/centroid sym=%s%s" % (sym, sfx)
+        elif sym == "planar_dump_of_out_of_plane_instance" and sm.regime == "small":
+            key = "read=%s sym=%s out_of_plane_offset=below_1e-8" % (r, sym)
         run.violation(key, "scene-level quantity differs from explicit placement of every instance",
                       dict(case, read=r, after=after, kinds=kinds, observed=_short(val), expected=_short(getattr(ex, r, None))))
     return bad
@@ -870,7 +1212,16 @@ def judge_read(run, r, val, ex, sm, only_mesh):
             return None if val is None else "value_for_empty_scene"
         if val is None:
             return "none_returned"
-        return None if close(want, val, S) else "wrong_value"
+        if close(want, val, S):
+            return None
+        val = np.asarray(val, dtype=np.float64)
+        if ex.curve_slack and val.shape == want.shape and np.abs(val - want).max() <= ex.curve_slack * 2:
+            return None  # arcs are bounded through their discretisation
+        raw = ex.bounds_raw
+        raw = {"bounds": raw, "extents": raw[1] - raw[0], "centroid": raw.mean(axis=0)}[r]
+        if not close(raw, want, S) and close(raw, val, S):
+            return "aabb_of_two_transformed_corners" if sm.special() == "voxel" else "aabb_of_raw_vertex_array"
+        return "wrong_value"
     if r in ("area", "volume"):
         want = getattr(ex, r)
         p = 2 if r == "area" else 3
@@ -973,12 +1324,12 @@ def judge_dump(val, ex):
         if not got or len(got) != 1:
             return "instance_missing"
         g = got[0]
-        V = np.asarray(g.vertices, dtype=np.float64)
+        V = np.asarray(g.vertices if hasattr(g, "vertices") else g.points, dtype=np.float64)
         if V.ndim == 2 and V.shape[1] == 2:
             if np.abs(P[:, 2]).max() > TOL.r * ex.scale * 10:
                 return "planar_dump_of_out_of_plane_instance"
             V = np.column_stack([V, np.zeros(len(V))])
-        if kind in ("path2", "path3"):
+        if kind in ("path2", "path3", "voxel"):
             # to_3D() / processing may re-order path vertices: compare as a point multiset
             if not same_point_multiset(P, V, ex.scale):
                 return "instance_misplaced:%s" % kind
@@ -1080,6 +1431,17 @@ def apply_edit(run, rng, pyrng, scene, sm, kind, serial):
         M[:3, 3] += np.array([3.0, -1.0, 2.0]) * sm.unit
         _nudge(scene, f, n, M)
         return {"edit": kind, "node": n, "matrix": M.tolist()}
+    if kind == "set_base_frame":
+        # the scene is expressed in another of its frames (a plain attribute of the graph; `rezero` sets it
+        # too).  Always the last edit of a history: later edits name their parent explicitly.
+        cands = [n for n in f.nodes if n != f.base and f.world(n) is not None
+                 and np.abs(f.world(n) - np.eye(4)).max() > 1e-3 * sm.unit]
+        if not cands:
+            return None
+        n = pyrng.choice(cands)
+        scene.graph.base_frame = n
+        f.base = n
+        return {"edit": kind, "node": n}
     if kind == "reparent":
         cands = [(n, p) for n in nonroot for p in f.nodes if p != f.parent[n] and not f.would_cycle(n, p) and f.depth(p) < 4
                  and f.world(p) is not None]
@@ -1193,6 +1555,8 @@ def apply_edit(run, rng, pyrng, scene, sm, kind, serial):
             M = edge_matrix(rng, "general", 1.0, unit=sm.unit)
             real.apply_transform(M)
             gm.V = gm.V @ M[:3, :3].T + M[:3, 3]
+            if gm.kind == "voxel":
+                gm.recipe["transform"] = (M @ np.array(gm.recipe["transform"])).tolist()
         return {"edit": kind, "geometry": g, "matrix": M.tolist()}
     if kind == "geom_replace":
         new = random_geom(rng, gm.kind, sm.unit)
@@ -1218,7 +1582,10 @@ def replay_edit(scene, sm, rec):
     f = sm.forest
     k = rec["edit"]
     M = np.array(rec["matrix"], dtype=np.float64) if "matrix" in rec else None
-    if k == "edge_nudge":
+    if k == "set_base_frame":
+        scene.graph.base_frame = rec["node"]
+        f.base = rec["node"]
+    elif k == "edge_nudge":
         _nudge(scene, f, rec["node"], M)
     elif k == "edge_update":
         scene.graph.update(rec["node"], f.parent[rec["node"]], matrix=M.copy())
@@ -1266,6 +1633,8 @@ def replay_edit(scene, sm, rec):
             real.apply_transform(M)
             d = gm.V.shape[1]
             gm.V = gm.V @ M[:d, :d].T + M[:d, d]
+            if gm.kind == "voxel":
+                gm.recipe["transform"] = (M @ np.array(gm.recipe["transform"])).tolist()
         elif k == "geom_replace":
             new = GeomModel(rec["kind"], rec["V"], rec["F"])
             scene.geometry[g] = make_real(new)
@@ -1273,6 +1642,9 @@ def replay_edit(scene, sm, rec):
     sm.hist.append(k)
 
 
+# geometry of the `kinds` family is not edited in place (primitives and voxel grids have no writable vertex array)
+KIND_EDITS = ("edge_update", "edge_update", "reparent", "remove_leaf", "add_instance", "add_geometry", "delete_geometry",
+              "geom_transform", "geom_transform")
 EDITS = ("edge_update", "edge_update", "reparent", "remove_leaf", "add_instance", "add_geometry", "delete_geometry",
          "vertex_setitem", "vertex_setitem", "vertex_imul", "geom_transform", "geom_replace",
          "alias_geometry", "alias_geometry", "swap_names")
@@ -1285,7 +1657,9 @@ EDITS = ("edge_update", "edge_update", "reparent", "remove_leaf", "add_instance"
 def snapshot(scene):
     geo = {}
     for k, g in scene.geometry.items():
-        rec = [type(g).__name__, np.asarray(g.vertices).tobytes()]
+        rec = [type(g).__name__, np.asarray(g.vertices if hasattr(g, "vertices") else g.points).tobytes()]
+        if hasattr(g, "primitive"):
+            rec.append(np.asarray(g.primitive.transform).tobytes())
         if hasattr(g, "faces"):
             rec.append(np.asarray(g.faces).tobytes())
         if hasattr(g, "entities"):
@@ -1328,10 +1702,11 @@ def raw_placements_full(D):
         if g not in D.geometry:
             raise KeyError(g)
         geom = D.geometry[g]
-        V = np.asarray(geom.vertices, dtype=np.float64)
+        V = np.asarray(geom.vertices if hasattr(geom, "vertices") else geom.points, dtype=np.float64)
         if V.shape[1] == 2:
             V = np.column_stack([V, np.zeros(len(V))])
-        kind = "mesh" if hasattr(geom, "faces") else ("path" if hasattr(geom, "entities") else "cloud")
+        kind = "mesh" if hasattr(geom, "faces") else ("path" if hasattr(geom, "entities") else (
+            "cloud" if hasattr(geom, "vertices") else "voxel"))
         out.append((kind, V @ W[:3, :3].T + W[:3, 3], np.asarray(geom.faces) if kind == "mesh" else None, W, V, n, f))
     return out
 
@@ -1368,7 +1743,7 @@ def match_placements(expected, actual, scale):
         for j, (k2, Q, F2) in enumerate(actual):
             if used[j] or k2 != kind or Q.shape != P.shape:
                 continue
-            same = same_point_multiset(P, Q, scale) if kind == "path" else close(P, Q, scale)
+            same = same_point_multiset(P, Q, scale) if kind in ("path", "voxel") else close(P, Q, scale)
             if same and (F is None or np.array_equal(F, F2)):
                 used[j] = True
                 hit = True
@@ -1430,6 +1805,12 @@ def derived_ops(rng, pyrng, sm, battery):
     ops.append(("scaled", "uniform", {"scale": 2.0 if battery else float(pyrng.choice((0.5, 2.0, 10.0)))}))
     ops.append(("scaled", "axis", {"scale": [1.0, 2.0, 3.0] if battery else [float(v) for v in pyrng.sample([0.5, 1.0, 2.0, 3.0, 1.5], 3)]}))
     ops.append(("scaled", "axis_equal", {"scale": [2.0, 2.0, 2.0]}))
+    extras = not battery or not sm.hist  # battery: once per scene (the un-edited scenario), not per history
+    if sm.regime != "lowprec" and extras:
+        # factors close to one: the effect (1e-5 x the coordinates) is ten times the tolerance
+        k = 1.00001 if (battery or pyrng.random() < 0.5) else 0.99999
+        ops.append(("scaled", "uniform_near_one", {"scale": k}))
+        ops.append(("scaled", "axis_near_one", {"scale": [k, 1.0, 1.0] if (battery or pyrng.random() < 0.5) else [1.0, k, 2.0 - k]}))
     ops.append(("rezero", "-", {}))
     ops.append(("convert_units", "in->mm", {"current": "in", "desired": "mm"}))
     M = axis_angle_to_matrix(_unit([2, -1, 1]), 1.1)
@@ -1454,6 +1835,11 @@ def derived_ops(rng, pyrng, sm, battery):
     inner = [n for n in sm.forest.nodes if n != sm.forest.base and sm.forest.children(n) and sm.forest.world(n) is not None]
     for n in (inner[:2] if battery else pyrng.sample(inner, min(2, len(inner)))):
         ops.append(("subscene", "inner", {"node": n}))
+    # a frame that carries an instance and nothing below it: the subscene is that instance alone
+    leaf = [n for n in sm.forest.nodes_geometry() if not sm.forest.children(n) and n != sm.forest.base and sm.forest.world(n) is not None]
+    for n in (sorted(leaf)[:1] if battery else pyrng.sample(sorted(leaf), min(1, len(leaf)))):
+        if extras:
+            ops.append(("subscene", "leaf", {"node": n}))
     if not battery:
         ops.append(("subscene", "base", {"node": sm.forest.base}))
     return ops
@@ -1493,8 +1879,8 @@ def small_regime_key(key, opkey, op, par, scene, sm, exq, expected, actual, S):
             if p == f.base and float(np.ptp(Tm @ f.matrix[n] - f.matrix[n])) < NEAR_IDENTITY:
                 return "derived=apply_transform sym=misplaced edge_change=below_1e-8"
     f = sm.forest
-    if "rotated_parent_translated_child=yes" in key:
-        return key  # the recorded per-axis defect explains it at any size
+    if "rotated_parent_translated_child=yes" in key or ("path2_among_them=yes" in key and "path2_moved=yes" in key):
+        return key  # the recorded per-axis / Path2D defects explain it at any size
     if any(near_identity(M) for M in f.matrix.values()) or sm.near_identity_nodes():
         return key + " input=matrix_within_1e-8_of_identity"
     return key
@@ -1523,9 +1909,11 @@ def edit_the_copy(run, D, unit):
             D.graph.update(n, parent, geometry=others[0])
             run.count("copy_edit:node_geometry_repointed")
     if names:
-        g = D.geometry[names[-1]]
-        g.vertices *= 2.0
-        run.count("copy_edit:vertices_scaled_in_place")
+        writable = [k for k in names if hasattr(D.geometry[k], "vertices") and not hasattr(D.geometry[k], "primitive")]
+        if writable:
+            g = D.geometry[writable[-1]]
+            g.vertices *= 2.0
+            run.count("copy_edit:vertices_scaled_in_place")
         D.delete_geometry(names[0])
         run.count("copy_edit:delete_geometry")
 
@@ -1536,18 +1924,35 @@ def run_derived(run, scene, sm, op, cls, par, case, worlds):
 
     ec = sm.edge_class()
     kinds = sm.kinds_present()
-    feats = "edge_class=%s" % ec
-    opkey = op if (op in ("copy", "rezero", "apply_transform", "convert_units") and cls != "then_edit") else "%s:%s" % (op, cls)
+    special = sm.special()
+    sfx = (" special=%s" % special) if special else ""
+
+    def _viol(key, what, c):
+        # mechanisms that are explained by the graph alone keep their key whatever the geometry class
+        plain = ("rotated_parent_translated_child=yes" in key or ("path2_among_them=yes" in key and "path2_moved=yes" in key)
+                 or "instances=none" in key or "cause=" in key)
+        run.violation(key if plain else key + sfx, what, c)
+
+    near_one = cls.endswith("_near_one")
+    kcls = cls.replace("_near_one", "")  # a factor close to one is an option of the same operation
+    opkey = op if (op in ("copy", "rezero", "apply_transform", "convert_units") and cls != "then_edit") else "%s:%s" % (op, kcls)
     inst = "some" if sm.forest.instances() else "none"
     # operations that go through the edge-list export inherit a defect recorded under C09
     cause = ""
-    if op in ("add", "append_scenes", "subscene") or (op == "scaled" and cls == "axis"):
+    if op in ("add", "append_scenes", "subscene") or (op == "scaled" and kcls == "axis"):
         if stale_edge_geometry(scene):
             cause = " cause=stale_edge_geometry"
         elif stale_edge(scene) and op != "scaled":
             cause = " cause=stale_edge"
     exq = Expect(sm, worlds)
     S = exq.scale
+    if (op == "rezero" or cls.startswith("rezeroed")) and special in RAW_BOUNDED:
+        b = scene.bounds
+        if special == "path_arc" or b is None or exq.bounds is None or not close(exq.bounds, b, S):
+            # re-zeroing moves the scene by its own centroid: approximate for arcs, wrong (and recorded under
+            # read=bounds/extents/centroid) while the bounds count rows nothing references / two corners
+            run.skip("rezero not judged: centroid of a scene whose bounds are not those of its vertex arrays")
+            return 0
     src = scene
     extra_sources = []
     try:
@@ -1576,9 +1981,9 @@ def run_derived(run, scene, sm, op, cls, par, case, worlds):
         elif op == "scaled":
             before = snapshot(scene)
             sc = par["scale"]
-            D = scene.scaled(sc if cls == "uniform" else list(sc))
+            D = scene.scaled(sc if kcls == "uniform" else list(sc))
             Tm = np.eye(4)
-            Tm[:3, :3] = np.diag([sc] * 3 if cls == "uniform" else sc)
+            Tm[:3, :3] = np.diag([sc] * 3 if kcls == "uniform" else sc)
             expected = expected_from(sm, Tm, worlds)
             S = S * float(np.max(np.diag(Tm)[:3]))
         elif op == "convert_units":
@@ -1628,7 +2033,9 @@ def run_derived(run, scene, sm, op, cls, par, case, worlds):
             node = par["node"]
             D = scene.subscene(node)
             f = sm.forest
-            sub = set(f.descendants(node)) - {node}
+            # every instance at or below `node` ("the part of the scene that succeeds the node"; the successors
+            # of a node include it), relative to `node`
+            sub = set(f.descendants(node))
             if node == f.base:
                 Tm = np.eye(4)
             else:
@@ -1639,9 +2046,16 @@ def run_derived(run, scene, sm, op, cls, par, case, worlds):
         else:
             raise KeyError(op)
     except Exception as e:
+        if special == "primitive" and op == "scaled" and kcls == "axis" and isinstance(e, ValueError):
+            # a Box / Cylinder cannot take a per-axis scale and stay one: Primitive.apply_transform refuses
+            run.count("derived_refused:scaled:axis:primitive")
+            return 0
         key = ("derived=%s sym=not_preserved%s" % (opkey, cause)) if cause else (
             "derived=%s sym=exception:%s instances=%s" % (opkey, type(e).__name__, inst))
-        run.violation(key,
+        if special == "voxel" and isinstance(e, AttributeError) and not cause:
+            # `.vertices` of a geometry that has none: raised whether or not the grid is instanced
+            key = "derived=%s sym=exception:AttributeError" % opkey
+        _viol(key,
                       "a derived-scene operation raised", dict(case, op=op, option=cls, params=par, error=repr(e)[:300], kinds=kinds))
         return 1
     run.count("derived:%s:%s" % (op, cls))
@@ -1652,7 +2066,7 @@ def run_derived(run, scene, sm, op, cls, par, case, worlds):
             diff = snapshot_diff(bf, snapshot(sc_))
             if diff:
                 bad += 1
-                run.violation("derived=%s sym=source_modified part=%s" % (opkey, "+".join(diff)),
+                _viol("derived=%s sym=source_modified part=%s" % (opkey, "+".join(diff)),
                               "the operation modified the scene it was derived from", dict(case, op=op, option=cls, params=par, changed=diff))
     if expected is None:
         return bad
@@ -1663,17 +2077,13 @@ def run_derived(run, scene, sm, op, cls, par, case, worlds):
     except Exception as e:
         key = ("derived=%s sym=not_preserved%s" % (opkey, cause)) if cause else (
             "derived=%s sym=result_unplaceable:%s" % (opkey, type(e).__name__))
-        run.violation(key,
+        _viol(key,
                       "the derived scene references a missing geometry or has a disconnected geometry frame",
                       dict(case, op=op, option=cls, params=par, error=repr(e)[:300]))
         return bad + 1
-    if op == "subscene":
-        # the instance at the root of the subscene is not judged
-        f = sm.forest
-        actual_nodes = D.graph.transforms.node_data
-        if par["node"] in actual_nodes and actual_nodes[par["node"]].get("geometry") is not None:
-            run.count("subscene_root_instance_kept")
     missing, extra = match_placements(expected, actual, S)
+    if op == "subscene" and par["node"] in sm.forest.nodes_geometry():
+        run.count("subscene_of_a_frame_that_carries_an_instance")
     if missing or extra:
         bad += 1
         if cause:
@@ -1682,20 +2092,34 @@ def run_derived(run, scene, sm, op, cls, par, case, worlds):
             sym = "misplaced" if (missing and extra and len(missing) == len(extra)) else ("missing_instance" if missing else "extra_instance")
             p2 = "yes" if any(k == "path2" for k, _ in missing) else "no"
             key = "derived=%s sym=%s path2_among_them=%s" % (opkey, sym, p2)
-            if op == "scaled" and cls == "axis":
+            if op == "scaled" and kcls == "axis":
                 key += " rotated_parent_translated_child=%s" % ("yes" if rotated_parent_translated_child(sm) else "no")
-            if (op == "scaled" and cls != "axis") or op == "convert_units":
+            if (op == "scaled" and kcls != "axis") or op == "convert_units":
                 key += " path2_moved=%s" % ("yes" if path2_moved(sm) else "no")
-            if sm.regime == "small":
+            if near_one:
+                # is the result the source, not scaled at all?
+                m2, e2 = match_placements(expected_from(sm, None, worlds), actual, S)
+                if not m2 and not e2:
+                    key = "derived=%s sym=not_scaled factor=within_1e-5_of_one" % opkey
+            if op == "subscene" and missing and not extra and par["node"] in sm.forest.nodes_geometry():
+                # is everything there but the instance that sits on the requested frame itself?
+                m3, e3 = match_placements(expected_from(sm, Tm, worlds, only=sub - {par["node"]}), actual, S)
+                if not m3 and not e3:
+                    key = "derived=%s sym=missing_instance which=instance_on_the_requested_frame" % opkey
+            if sm.regime == "small" and "factor=within_1e-5_of_one" not in key and "instance_on_the_requested_frame" not in key:
                 key = small_regime_key(key, opkey, op, par, scene, sm, exq, expected, actual, S)
-        run.violation(key, "placements of the derived scene are not the source placements scaled / moved accordingly",
+        if "factor=within_1e-5_of_one" in key or "instance_on_the_requested_frame" in key:
+            run.violation(key, "placements of the derived scene are not the source placements scaled / moved accordingly",
+                          dict(case, op=op, option=cls, params=par, kinds=kinds, edge_class=ec))  # whatever the geometry class
+            return bad
+        _viol(key, "placements of the derived scene are not the source placements scaled / moved accordingly",
                       dict(case, op=op, option=cls, params=par, kinds=kinds, edge_class=ec,
                            missing=[(k, _short(P)) for k, P in missing[:2]], extra=[(k, _short(P)) for k, P, _ in extra[:2]]))
         return bad
     # 3. the derived scene's own reads agree with its placements
     try:
         pts = [a[1] for a in actual if len(a[1])]
-        if pts:
+        if pts and special not in RAW_BOUNDED:
             allp = np.vstack(pts)
             wb = np.array([allp.min(axis=0), allp.max(axis=0)])
             rb = D.bounds
@@ -1704,7 +2128,7 @@ def run_derived(run, scene, sm, op, cls, par, case, worlds):
                 dkey = "derived=%s sym=derived_read_wrong read=bounds" % opkey
                 if sm.regime == "small" and derived_graph_drops_near_identity(D, full):
                     dkey = "graph_world_transform=differs_from_forest sym=near_identity_edge_dropped_from_path"
-                run.violation(("derived=%s sym=not_preserved%s" % (opkey, cause)) if cause else dkey,
+                _viol(("derived=%s sym=not_preserved%s" % (opkey, cause)) if cause else dkey,
                               "bounds of the derived scene disagree with its own raw placements",
                               dict(case, op=op, option=cls, params=par, observed=rb, expected=wb))
         tris = [a[1][a[2]] for a in actual if a[0] == "mesh"]
@@ -1721,12 +2145,12 @@ def run_derived(run, scene, sm, op, cls, par, case, worlds):
                     alt = [(a[4] if near_identity(a[3]) else a[1])[a[2]] for a in full if a[0] == "mesh"]
                     if rt.shape == wt.shape and same_point_multiset(np.vstack(alt).reshape(-1, 9), rt, S):
                         dkey = "derived_read=triangles sym=%s" % NI_DROPPED
-                run.violation(("derived=%s sym=not_preserved%s" % (opkey, cause)) if cause else dkey,
+                _viol(("derived=%s sym=not_preserved%s" % (opkey, cause)) if cause else dkey,
                               "triangles of the derived scene disagree with its own raw placements",
                               dict(case, op=op, option=cls, params=par))
     except Exception as e:
         bad += 1
-        run.violation(("derived=%s sym=not_preserved%s" % (opkey, cause)) if cause else "derived=%s sym=derived_read_exception:%s" % (opkey, type(e).__name__),
+        _viol(("derived=%s sym=not_preserved%s" % (opkey, cause)) if cause else "derived=%s sym=derived_read_exception:%s" % (opkey, type(e).__name__),
                       "reading the derived scene raised", dict(case, op=op, option=cls, params=par, error=repr(e)[:300]))
     return bad
 
@@ -1753,11 +2177,14 @@ def _scenario(run, tag, spec, rng, pyrng, n_edits, battery, recorded_edits, forc
     serial = 0
     pre = None
     edits = recorded_edits if recorded_edits is not None else [None] * n_edits
+    pool = KIND_EDITS if sm.special() else EDITS
     for rec in edits:
         serial += 1
         pre_now = dict(scene._cache.cache)  # raw entries (objects) cached before this edit
         if rec is None:
-            kind = forced[serial - 1] if forced else pyrng.choice(EDITS)
+            kind = forced[serial - 1] if forced else pyrng.choice(pool)
+            if kind == "set_base_frame" and serial != len(edits):
+                continue  # only ever the last edit of a history
             try:
                 rec = apply_edit(run, rng, pyrng, scene, sm, kind, serial)
             except Exception as e:
@@ -1779,7 +2206,7 @@ def _scenario(run, tag, spec, rng, pyrng, n_edits, battery, recorded_edits, forc
             break
     if case["edits"]:
         bad += do_reads(run, scene, sm, reads_all, case, after=case["edits"][-1]["edit"], edited=True, pre_edit=pre)
-        bad += _tri_node(run, scene, sm, case, case["edits"][-1]["edit"])
+        bad += _tri_node(run, scene, sm, case, case["edits"][-1]["edit"], pre)
     run.state("kinds", "+".join(sm.kinds_present()))
     run.state("edge_class", sm.edge_class())
     run.state("regime", str(sm.regime))
@@ -1799,13 +2226,20 @@ def _scenario(run, tag, spec, rng, pyrng, n_edits, battery, recorded_edits, forc
         # scene rebuilt from those records cannot agree with the source's reads either way
         run.skip("derived operations skipped: scene graph inconsistent with its edges (C09)")
         return
+    if sm.forest.base in sm.forest.parent:
+        # copy / scaled / rezero / apply_transform / + are written for a base frame that is the root of its tree
+        # (observed: KeyError, re-parented base frame, self-edges); only the reads are judged in that state
+        run.skip("derived operations not run: the base frame is not the root of its tree (reads are judged)")
+        return
     use_worlds = None
     for op, cls, par in derived_ops(rng, pyrng, sm, battery):
         dcase = dict(case, derived=[op, cls, par])
         run_derived(run, scene, sm, op, cls, par, dcase, use_worlds)
         run.case("derived:%s:%s" % (op, cls), dig, op, cls, nontrivial=nt)
     # and the source still reads the same after all of that
-    do_reads(run, scene, sm, ["bounds", "area", "triangles"], case, after="derived_ops")
+    last = case["edits"][-1]["edit"] if case["edits"] else None
+    do_reads(run, scene, sm, ["bounds", "area", "triangles"], case, after="derived_ops" if last != "set_base_frame" else last,
+             pre_edit=pre if last == "set_base_frame" else None)
 
 
 def real_worlds_quiet(scene, sm):
@@ -1819,10 +2253,24 @@ def real_worlds_quiet(scene, sm):
         worlds[node] = M
         if worlds_differ(M, W) or g != gname:
             ok = False
+    # frames that carry no instance take part in the derived operations too (apply_transform re-writes the
+    # edges below the base frame from graph[child], subscene is relative to an inner frame)
+    for n in sm.forest.nodes:
+        if n in worlds or n == sm.forest.base:
+            continue
+        W = sm.forest.world(n)
+        if W is None:
+            continue
+        try:
+            M = np.asarray(scene.graph.get(n)[0], dtype=np.float64)
+        except Exception:
+            return None, False
+        if worlds_differ(M, W):
+            ok = False
     return worlds, ok
 
 
-def _tri_node(run, scene, sm, case, after):
+def _tri_node(run, scene, sm, case, after, pre_edit=None):
     if not sm.all_connected():
         return 0
     worlds, consistent = real_worlds_quiet(scene, sm)
@@ -1845,8 +2293,12 @@ def _tri_node(run, scene, sm, case, after):
                 return 1
         except Exception:
             pass
+    if sym and after == "set_base_frame" and pre_edit and any(
+            pre_edit.get(k) is not None and scene._cache.cache.get(k) is pre_edit.get(k) for k in ("triangles", "triangles_node")):
+        run.violation(STALE_AFTER_BASE_FRAME, "triangles / triangles_node cached before the base frame changed were served", dict(case, after=after))
+        return 1
     if sym:
-        run.violation("read=triangles_node sym=%s edge_class=%s" % (sym, sm.edge_class()),
+        run.violation("read=triangles_node sym=%s edge_class=%s%s" % (sym, sm.edge_class(), (" special=%s" % sm.special()) if sm.special() else ""),
                       "triangles_node does not label each placed triangle with its frame", dict(case, after=after))
         return 1
     return 0
@@ -1858,7 +2310,7 @@ def workload(run):
         idx += 1
         if not run.mine(idx):
             continue
-        if run.out_of_time(0.65):
+        if run.out_of_time(0.72):
             run.inconclusive("fixed battery did not finish within the budget")
             break
         for n_edits in (0, 2):
@@ -1870,12 +2322,28 @@ def workload(run):
         for forced in (F[idx % 5],):
             if not run.out_of_time(0.6):
                 scenario(run, tag + ":shared_object", spec, run.rng, run.pyrng, len(forced), battery=True, forced=forced)
+        # the scene is expressed in another of its frames after everything was read (and cached)
+        if idx % 4 == 0 and not run.out_of_time(0.6):
+            forced = (("edge_update", "set_base_frame"), ("set_base_frame",))[(idx // 4) % 2]
+            scenario(run, tag + ":base_frame", spec, run.rng, run.pyrng, len(forced), battery=True, forced=forced)
+    run.note("battery_main_seconds", round(run.elapsed(), 1))
+    # geometry classes whose bounds are not the AABB of a vertex array, primitives, voxel grids
+    for tag, spec in kinds_battery_specs():
+        idx += 1
+        if not run.mine(idx):
+            continue
+        if run.out_of_time(0.8):
+            run.inconclusive("kinds battery did not finish within the budget")
+            break
+        scenario(run, tag, spec, run.rng, run.pyrng, 0, battery=True)
+        scenario(run, tag + ":edited", spec, run.rng, run.pyrng, 2, battery=True, forced=("geom_transform", "set_base_frame"))
+    run.note("battery_kinds_seconds", round(run.elapsed(), 1))
     # low-precision rotation factors (world matrices that `repair_rigid` looks at) and scenes in a unit of 1e-9
     for tag, spec in regime_battery_specs():
         idx += 1
         if not run.mine(idx):
             continue
-        if run.out_of_time(0.75):
+        if run.out_of_time(0.86):
             run.inconclusive("regime battery did not finish within the budget")
             break
         for n_edits in (0, 2):
@@ -1886,8 +2354,16 @@ def workload(run):
     while not run.out_of_time(0.93):
         k += 1
         reg = (None, None, None, None, None, None, "lowprec", "small")[k % 8]
-        spec = random_spec(run.rng, run.pyrng, reg)
-        scenario(run, "random" if reg is None else "random:" + reg, spec, run.rng, run.pyrng, int(run.rng.integers(0, 5)))
+        special = SPECIALS[(k // 8) % len(SPECIALS)] if k % 8 == 3 else None
+        spec = random_spec(run.rng, run.pyrng, reg, special)
+        n_edits = int(run.rng.integers(0, 5))
+        forced = None
+        if n_edits and run.pyrng.random() < 0.2:
+            # a history that ends with the scene being expressed in another of its frames
+            pool = KIND_EDITS if special else EDITS
+            forced = tuple(run.pyrng.choice(pool) for _ in range(n_edits - 1)) + ("set_base_frame",)
+        tag = "random" if reg is None else "random:" + reg
+        scenario(run, tag if special is None else "random:kinds:" + special, spec, run.rng, run.pyrng, n_edits, forced=forced)
     run.note("random_scenes", k)
 
 
